@@ -4,16 +4,22 @@ import (
 	"github.com/LemoFoundationLtd/lemochain-core/chain/deputynode"
 	"github.com/LemoFoundationLtd/lemochain-core/common"
 	"github.com/LemoFoundationLtd/lemochain-core/common/crypto"
+	"sync"
 )
 
 // cache confirm to save CPU. This confirm may not be used at last
 var sigCache struct {
+	sync.Mutex
 	Hash common.Hash
 	Sig  []byte
 }
 
 // SignBlock sign a block hash by node key
 func SignBlock(blockHash common.Hash) ([]byte, error) {
+	// called with the chain lock (mining, inserting) and without it (batch confirm of new stable blocks)
+	sigCache.Lock()
+	defer sigCache.Unlock()
+
 	if sigCache.Hash == blockHash {
 		return sigCache.Sig, nil
 	}
